@@ -236,3 +236,11 @@ Proof.
   - unfold req_term. cbn. repeat apply d_pair; try apply d_atom. apply d_init. reflexivity.
   - vm_compute. reflexivity.
 Qed.
+
+(* TIE BY TRANSLATION: valid_client_secret as it reads in /repo/src NOW (coq/Gen/Src_token.v, regenerated every
+   run by harness/py2v.py) computes the model's valid_client_secret. *)
+From Verif Require Gen.Src_token Proofs.Src_refine.
+Theorem C01_valid_client_secret_is_source : forall c now,
+  Src_token.valid_client_secret_src (Src_refine.inject_client c) (VInt now) = Ok (VBool (ClientAuthn.valid_client_secret c now)).
+Proof. exact Src_refine.valid_client_secret_refines. Qed.
+Print Assumptions C01_valid_client_secret_is_source.
